@@ -402,7 +402,7 @@ def b_accum(ctx):
     wc = pd.Series({'P_RAM_Z': 400.0, 'P_RAM_D': 150.0, 'd_1': -0.3, 'd_2': -0.2})
     w = wc.woehler_P_RAM
     pvals = [160.0, 250.0, 400.0, 700.0] if ctx.tier == 'quick' else [151.0, 160.0, 250.0, 399.0, 400.0, 700.0]
-    maxrows = 2 if ctx.tier == 'quick' else 3
+    maxrows = 2      # (three rows per pass over six P_RAM values would be 3.5 million tables: the thorough tier widens the value set instead)
     ctx.bound = f"all hysteresis tables with 0..{maxrows} rows in pass 1 and 1..{maxrows} rows in pass 2, P_RAM from {pvals}, closed/half flags; 3 material groups x R_m grid for P_RAM"
     ctx.rule = "non-trivial: table with both passes or a half hysteresis"
     ctx.exhaustive = True
